@@ -143,7 +143,7 @@ func runBuild(c *Ctx) {
 	cbOK := cb != nil && len(cb.Common().Args) == 2 && isSet(cb.Common().Args[0], inP) && isSet(cb.Common().Args[1], outP) && load != nil && core.InstrDominates(load, cb)
 	c.R.Add("BUILD", "body|callback-gets-both-sets", core.FuncName(body), p.Pos(body.Pos()), cbOK, "the callback is called, after loading, with the input set and the output set", fmt.Sprintf("ok=%v", cbOK))
 	// returns
-	errRet, okRet := false, false
+	errRet, okRet, singleExit := false, false, false
 	for _, r := range core.Returns(body) {
 		ap, ok := r.Results[0].(*ssa.Call)
 		if !ok || core.CalleeName(ap.Common()) != "builtin.append" {
@@ -155,6 +155,31 @@ func runBuild(c *Ctx) {
 		}
 		lits := core.Lits(core.Guards(r.Block()))
 		for _, e := range appendedValues(ap) {
+			// one exit whose final value was chosen before (`errVal := Zero(errType); if err != nil { errVal = ValueOf(err) }`):
+			// each alternative is judged under the guard of the edge it arrives on
+			if ph, isPhi := e.(*ssa.Phi); isPhi && len(core.Returns(body)) == 1 {
+				for i, pe := range ph.Edges {
+					pcl, isC := pe.(*ssa.Call)
+					if !isC {
+						continue
+					}
+					pred := ph.Block().Preds[i]
+					elits := core.Lits(append(core.Guards(pred), edgeGuard(pred, ph.Block())...))
+					switch core.CalleeName(pcl.Common()) {
+					case "reflect.ValueOf":
+						if cb != nil && core.Strip(pcl.Common().Args[0]) == ssa.Value(cb) && nilCheckLit(elits, cb, false) {
+							errRet = true
+						}
+					case "reflect.Zero":
+						// the default, kept on the way where the callback's error is nil
+						okRet = true
+					}
+				}
+				if errRet && okRet {
+					singleExit = true
+				}
+				continue
+			}
 			cl, ok := e.(*ssa.Call)
 			if !ok {
 				continue
@@ -173,7 +198,7 @@ func runBuild(c *Ctx) {
 	}
 	c.R.Add("BUILD", "body|callback-error-is-final-result", core.FuncName(body), p.Pos(body.Pos()), errRet, "when the callback fails the generated function returns the rendered outputs followed by that very error", fmt.Sprintf("ok=%v", errRet))
 	c.R.Add("BUILD", "body|success-returns-outputs-and-nil", core.FuncName(body), p.Pos(body.Pos()), okRet, "when the callback succeeds the generated function returns the rendered outputs followed by a nil error", fmt.Sprintf("ok=%v", okRet))
-	c.R.Add("BUILD", "body|only-these-exits", core.FuncName(body), p.Pos(body.Pos()), len(core.Returns(body)) == 2, "the generated function has exactly the success and the failure exit", fmt.Sprintf("returns=%d", len(core.Returns(body))))
+	c.R.Add("BUILD", "body|only-these-exits", core.FuncName(body), p.Pos(body.Pos()), len(core.Returns(body)) == 2 || (singleExit && len(core.Returns(body)) == 1), "the generated function has exactly the success and the failure exit", fmt.Sprintf("returns=%d", len(core.Returns(body))))
 
 	// ---------------- VSET
 	vs := func(name string) *ssa.Function { return p.Method(p.Arg, "ValueSet", name) }
